@@ -810,11 +810,14 @@ pub struct HashMon {
     pub log: Vec<u8>,
     pub cap: usize,
     pub log_cap_bytes: usize,
+    /// XOR difference of the hashes of two positions that differ in one component -> which component;
+    /// the same difference for two different components means their keys are not independent
+    pub deltas: HashMap<u64, (String, String)>,
 }
 
 impl HashMon {
     pub fn new(prop8: bool, prop9: bool, variant: Variant, cap: usize) -> HashMon {
-        HashMon { prop8, prop9, variant, by_pos: HashMap::new(), by_hash: HashMap::new(), log: vec![], cap, log_cap_bytes: 6_000_000 * 50 }
+        HashMon { prop8, prop9, variant, by_pos: HashMap::new(), by_hash: HashMap::new(), log: vec![], cap, log_cap_bytes: 6_000_000 * 50, deltas: HashMap::new() }
     }
 
     /// record one observed board; `how` says how it was reached
@@ -1014,6 +1017,96 @@ impl HashMon {
             if let Some(n2) = n1.null_move() {
                 rep.count("ev_double_null");
                 self.record(&n2, "null-null", rep);
+            }
+        }
+    }
+
+    /// `var` names the component (variable) that was changed, `what` the change itself.  The same hash
+    /// difference for changes of two *different* components means that applying both gives a collision.
+    fn note_delta(&mut self, delta: u64, var: String, what: String, rep: &mut Report) {
+        rep.count("ev_component_deltas");
+        if delta == 0 {
+            return; // equal hashes of distinct positions are reported by the sibling / collision oracles
+        }
+        match self.deltas.get(&delta) {
+            Some((v, w)) if *v != var => {
+                rep.violation("C09/key-dependence", format!("changing [{}] and changing [{}] alter the hash by the same amount {:016x}: positions differing in both collide", w, what, delta));
+            }
+            Some(_) => {}
+            None => {
+                if self.deltas.len() < 200_000 {
+                    self.deltas.insert(delta, (var, what));
+                }
+            }
+        }
+    }
+
+    /// single-component hash differences, gathered through the builder from (almost) any position
+    fn component_deltas(&mut self, n: &Node, rep: &mut Report, rng: &mut Rng) {
+        let orig: BoardBuilder = n.b.into();
+        let mut base = orig;
+        base.en_passant(None);
+        let b0 = match Board::try_from(&base) {
+            Ok(b) => b,
+            Err(_) => return,
+        };
+        let h0 = b0.get_hash();
+        let stm = base.get_side_to_move();
+        let stm_name = if stm == Color::White { "white" } else { "black" };
+        // castling rights: every pair of values of one colour that the placement backs
+        for c in [Color::White, Color::Black].iter() {
+            let cname = if *c == Color::White { "white" } else { "black" };
+            let cur = rights_bits(base.get_castle_rights(*c));
+            for r in 0..4u8 {
+                if r & !cur != 0 || r == cur {
+                    continue;
+                }
+                let mut bb = base;
+                bb.castle_rights(*c, lib_rights(r));
+                if let Ok(t) = Board::try_from(&bb) {
+                    // (the key of a rights value depends on whose move it is only through the colour argument)
+                    self.note_delta(t.get_hash() ^ h0, format!("{} castling rights", cname), format!("{} castling rights {}->{}", cname, cur, r), rep);
+                }
+            }
+        }
+        // e.p. file none -> f
+        let p = read_board(&b0);
+        let mover = p.stm ^ 1;
+        let r4 = if mover == WHITE { 3 } else { 4 };
+        for f in 0..8i8 {
+            if p.sq[mk(f, r4).unwrap() as usize] == pc(P, mover) {
+                let mut bb = base;
+                bb.en_passant(Some(File::from_index(f as usize)));
+                if let Ok(t) = Board::try_from(&bb) {
+                    if t.en_passant().is_some() {
+                        self.note_delta(t.get_hash() ^ h0, "e.p. state".to_string(), format!("e.p. file {} with {} to move", (b'a' + f as u8) as char, stm_name), rep);
+                    }
+                }
+            }
+        }
+        // side to move
+        {
+            let mut bb = base;
+            bb.side_to_move(!stm);
+            if let Ok(t) = Board::try_from(&bb) {
+                self.note_delta(t.get_hash() ^ h0, "side to move".to_string(), "side to move".to_string(), rep);
+            }
+        }
+        // one man added
+        for _ in 0..6 {
+            let s = rng.below(64) as u8;
+            if p.sq[s as usize] != 0 {
+                continue;
+            }
+            let k = *rng.pick(&[P, N, B, R, Q]);
+            let c = rng.below(2) as u8;
+            if k == P && (s >> 3 == 0 || s >> 3 == 7) {
+                continue;
+            }
+            let mut bb = base;
+            bb.piece(Square::new(s), lib_piece(k), lib_color(c));
+            if let Ok(t) = Board::try_from(&bb) {
+                self.note_delta(t.get_hash() ^ h0, format!("square {}", sq_name(s)), format!("{} {} on {}", if c == WHITE { "white" } else { "black" }, piece_char(pc(k, WHITE)), sq_name(s)), rep);
             }
         }
     }
@@ -1229,6 +1322,7 @@ impl NodeMon for HashMon {
             let every = if self.variant == Variant::Miri { 8 } else { 6 };
             if rng.chance(1, every) {
                 self.siblings(n, rep, rng);
+                self.component_deltas(n, rep, rng);
             }
         }
         if n.ply == 5 {
